@@ -1,4 +1,5 @@
 import Tw.Proofs.NetLazy
+import Tw.Proofs.NetC01Final
 
 /-!
 # C20 — the multi-peer endpoint keeps peers isolated
@@ -371,6 +372,55 @@ theorem new_peer_terminates_reachable (acc : Bool) (h : History) (net' : Net) (o
     (addr : Nat) (tok : Bool) : ∃ net1 pid, newPeer net' addr tok = .ok (net1, pid) :=
   newPeer_ok_of_room net' addr tok
     (run_next_lt h (Net.new acc) net' outs (by show Tw.Gen.Net.firstPeerId < idMod; decide) hr) hlen
+
+/-! ## composition with C01: reliable delivery through the endpoint -/
+
+/-- **C20 ∘ C01.**  One endpoint, one remote 0.6 connection at address `addr`, C01's adversarial
+network between them (any datagram either side ever sent to the other is delivered at any time, any
+number of times, in any order, or never), while the endpoint serves any other addresses and peers
+in any interleaving (`Tw.NetC01`, `Model/NetC01.lean`; scope: the first peer `addr` ever gets; no
+datagram with source `addr` that the remote did not send).  If the image of the schedule in the
+two-connection world of C01 is admissible there (C01's H1/H2: fewer than 512 unacknowledged vital
+chunks, no datagram delayed across 1024 sequence numbers), then
+
+* the vital chunks the endpoint handed to its application for the peer at `addr` are a **prefix of
+  what the remote's connection submitted** — nothing skipped, duplicated, reordered or altered —,
+* the vital chunks the remote's connection delivered are a prefix of what `Net::send` accepted for
+  that peer, and
+* the ghost history C01 speaks about is the endpoint's real history of datagrams to `addr`.
+
+Proof: the per-address simulation of this file (`isolation_step` through `step_sim` / `feed_sim`)
+identifies the endpoint's peer with the connection `b` of C01's world move by move — `Net::accept`
+with the delivery of the client's own connect request, which is the canned packet because every
+connect request a connection writes is `control 0 TOKEN_NONE connect` —, then `C01_conn6`. -/
+theorem vital_chunks_through_net (tl acc : Bool) (addr : Nat) (sched : List Tw.NetC01.NMove)
+    (w : Tw.NetC01.NW tl)
+    (hrun : Tw.NetC01.nwRun addr (Tw.NetC01.NW.init tl acc) sched = some w)
+    (hok : Tw.NetC01.nwOk addr (Tw.NetC01.NW.init tl acc) sched = true)
+    (hadm : Tw.NetSim.admissible (Tw.NetSim.World.init (Tw.NetSim.proto6 tl))
+      (Tw.NetC01.ghostSched addr (Tw.NetC01.NW.init tl acc) sched) = true) :
+    w.netVital <+: w.g.a.submittedVital ∧ w.g.a.deliveredVital <+: Tw.NetSim.vitalOf w.netSub ∧
+      w.netOut = w.g.b.out.map (·.pkt) :=
+  Tw.NetC01.net_c01 tl acc addr sched w hrun hok hadm
+
+/-- the coupling behind it, for any run: the connection object of the endpoint's peer at `addr` *is*
+the connection `b` of the ghost world, and the ghost's logs are the endpoint's -/
+theorem net_peer_is_c01_connection (tl acc : Bool) (addr : Nat) (sched : List Tw.NetC01.NMove)
+    (w : Tw.NetC01.NW tl)
+    (hrun : Tw.NetC01.nwRun addr (Tw.NetC01.NW.init tl acc) sched = some w)
+    (hok : Tw.NetC01.nwOk addr (Tw.NetC01.NW.init tl acc) sched = true) :
+    (∀ pid p, slot w.net.peers addr = some (pid, p) → p.conn = w.g.b.conn) ∧
+      w.netVital = w.g.b.deliveredVital ∧ w.netSub = w.g.b.submitted ∧
+      Tw.NetSim.run (Tw.NetSim.World.init (Tw.NetSim.proto6 tl))
+        (Tw.NetC01.ghostSched addr (Tw.NetC01.NW.init tl acc) sched) = some w.g := by
+  have hc := Tw.NetC01.coup_run sched _ w (Tw.NetC01.coup_init tl acc addr) hok hrun
+  exact ⟨fun pid p h => (hc.conn pid p h).1, hc.vital, hc.sub, Tw.NetC01.ghost_run sched _ w hrun⟩
+
+example : (Tw.NetC01.nwRun 1 (Tw.NetC01.NW.init false true) Tw.NetC01.demoRun).map Tw.NetC01.summary =
+    some ([[7], [8]], [([5], true)], [[7], [8]], [[5]]) := by rfl
+example : Tw.NetC01.nwOk 1 (Tw.NetC01.NW.init false true) Tw.NetC01.demoRun = true := by decide
+example : Tw.NetSim.admissible (Tw.NetSim.World.init (Tw.NetSim.proto6 false))
+    (Tw.NetC01.ghostSched 1 (Tw.NetC01.NW.init false true) Tw.NetC01.demoRun) = true := by decide
 
 /-! ## non-vacuity, and the history of D22 -/
 
